@@ -13,8 +13,8 @@ func init() {
 		ID:         "C47",
 		Level:      "other",
 		Technique:  "writer/sizer/reader agreement on the MessageSet item frame (tag multisets by constant, wire types in the reader's switch), DiscardUnknown dominance of unknown-item sinks, recursion guard (static; protolegacy configuration)",
-		Explain:    "Decides structural necessary conditions of the MessageSet item format: (1) SizeField accounts for exactly the tags and varint that AppendFieldStart and AppendFieldEnd emit (item start and end tags of field 1, type_id tag of field 2, the type id varint), and SizeUnknown for what AppendUnknown emits (frame, message tag of field 3, payload); the item constants have the values of the MessageSet wire format (1, 2, 3); (2) the reader accepts the same frame: Unmarshal enters an item on (FieldItem, StartGroupType) and ConsumeFieldValue's switch handles exactly (FieldItem, EndGroupType), (FieldTypeID, VarintType), (FieldMessage, BytesType) with every consumed length sign-tested; (3) with the protolegacy tag, unknown MessageSet items are stored only when DiscardUnknown is off, on both decoding paths; (4) MessageSet decoding recursion is cut by the depth checks of the binary decoders.",
-		NotCovered: "the round trip on concrete MessageSets; merging of repeated message fields inside one item (value-level); sizeMessageSet/marshalMessageSet per-extension loops (lazy extension branches).",
+		Explain:    "Decides structural necessary conditions of the MessageSet item format: (1) SizeField accounts for exactly the tags and varint that AppendFieldStart and AppendFieldEnd emit (item start and end tags of field 1, type_id tag of field 2, the type id varint), and SizeUnknown for what AppendUnknown emits (frame, message tag of field 3, payload); the item constants have the values of the MessageSet wire format (1, 2, 3); (2) the reader accepts the same frame: Unmarshal enters an item on (FieldItem, StartGroupType) and ConsumeFieldValue's switch handles exactly (FieldItem, EndGroupType), (FieldTypeID, VarintType), (FieldMessage, BytesType) with every consumed length sign-tested; (3) with the protolegacy tag, unknown MessageSet items are stored only when DiscardUnknown is off, on both decoding paths; (4) MessageSet decoding recursion is cut by the depth checks of the binary decoders. Further: the length prefix rebuilt when an item has several message subfields declares exactly the bytes appended after it (linear forms); the reflective item decoder merges into m.Mutable(xd) like the table-driven one; both decoders store an unknown item canonically (tag, minimal length, payload; found D26).",
+		NotCovered: "the round trip on concrete MessageSets; sizeMessageSet/marshalMessageSet per-extension loops (lazy extension branches).",
 		Quick:      []ConfigLoad{{"legacy", []string{"./proto", "./internal/impl", "./internal/encoding/messageset"}}},
 		Thorough:   []ConfigLoad{{"legacy", []string{"./..."}}, {"default", []string{"./proto", "./internal/impl", "./internal/encoding/messageset"}}},
 		Run: func(c *Ctx) {
